@@ -156,6 +156,136 @@ theorem eqOfTime_bound (jc : ℝ) (h : |jc| ≤ 101 / 100) : |eqOfTime jc| ≤ 1
         mul_le_mul hk h720 (div_pos (by norm_num) ppos).le (by norm_num)
     _ ≤ 187 / 10 := by norm_num
 
+
+/-! ### The whole calendar: |T| ≤ 81 centuries (years 1 … 9999, ΔT included) -/
+
+theorem ecc_bound_wide (jc : ℝ) (h : |jc| ≤ 81) :
+    12 / 1000 ≤ eccentricLocationEarthOrbit jc ∧ eccentricLocationEarthOrbit jc ≤ 21 / 1000 := by
+  unfold eccentricLocationEarthOrbit
+  have h1 : |0.0000001267 * jc| ≤ 0.0000001267 * 81 := by
+    rw [abs_mul]; norm_num; linarith
+  have h2 : |(0.000042037 + 0.0000001267 * jc : ℝ)| ≤ 0.0000524 := by
+    refine le_trans (abs_add_le _ _) ?_
+    rw [abs_of_nonneg (by norm_num : (0 : ℝ) ≤ 0.000042037)]
+    have : (0.0000001267 * 81 : ℝ) ≤ 0.0000103 := by norm_num
+    linarith
+  have h3 := abs_mul_le' h h2
+  rw [abs_le] at h3
+  have e : (81 * 0.0000524 : ℝ) = 0.0042444 := by norm_num
+  rw [e] at h3
+  constructor <;> norm_num <;> [skip; skip] <;> nlinarith [h3.1, h3.2]
+
+theorem obliq_bound_wide (jc : ℝ) (h : |jc| ≤ 81) :
+    22 ≤ obliquityCorrection jc ∧ obliquityCorrection jc ≤ 2478 / 100 := by
+  unfold obliquityCorrection meanObliquityOfEcliptic
+  simp only
+  have a1 : |jc * 0.001813| ≤ 81 * 0.001813 := by
+    rw [abs_mul]; norm_num; linarith
+  have a2 : |(0.00059 - jc * 0.001813 : ℝ)| ≤ 0.1475 := by
+    refine le_trans (abs_sub _ _) ?_
+    rw [abs_of_nonneg (by norm_num : (0 : ℝ) ≤ 0.00059)]
+    have : (81 * 0.001813 : ℝ) ≤ 0.1469 := by norm_num
+    linarith
+  have a3 := abs_mul_le' h a2
+  have a4 : |(46.815 + jc * (0.00059 - jc * 0.001813) : ℝ)| ≤ 58.77 := by
+    refine le_trans (abs_add_le _ _) ?_
+    rw [abs_of_nonneg (by norm_num : (0 : ℝ) ≤ 46.815)]
+    have : (81 * 0.1475 : ℝ) ≤ 11.95 := by norm_num
+    linarith
+  have a5 := abs_mul_le' h a4
+  have e : (81 * 58.77 : ℝ) = 4760.37 := by norm_num
+  rw [e, abs_le] at a5
+  have c := abs_le.mp (Real.abs_cos_le_one (radians (125.04 - 1934.136 * jc)))
+  simp only [trig_cos]
+  constructor <;> norm_num <;> nlinarith [a5.1, a5.2, c.1, c.2]
+
+theorem tan_small_wide {x : ℝ} (h0 : 0 ≤ x) (h1 : x ≤ 21625 / 100000) :
+    0 ≤ Real.tan x ∧ Real.tan x ≤ 22143 / 100000 := by
+  have hs := Real.sin_le h0
+  have hs0 : 0 ≤ Real.sin x := Real.sin_nonneg_of_nonneg_of_le_pi h0 (by linarith [Real.pi_gt_three])
+  have hc := Real.one_sub_sq_div_two_le_cos (x := x)
+  have hx2 : x ^ 2 ≤ (21625 / 100000) ^ 2 := by nlinarith
+  have hcpos : (0 : ℝ) < Real.cos x := by nlinarith
+  rw [Real.tan_eq_sin_div_cos]
+  constructor
+  · exact div_nonneg hs0 hcpos.le
+  · rw [div_le_iff₀ hcpos]
+    nlinarith
+
+theorem varY_bound_wide (jc : ℝ) (h : |jc| ≤ 81) : 0 ≤ varY jc ∧ varY jc ≤ 49032 / 1000000 := by
+  unfold varY
+  simp only [trig_tan]
+  obtain ⟨o1, o2⟩ := obliq_bound_wide jc h
+  have hx0 : 0 ≤ radians (obliquityCorrection jc) / 2.0 := by
+    rw [radians_eq]; norm_num
+    have := Real.pi_pos
+    nlinarith
+  have hx1 : radians (obliquityCorrection jc) / 2.0 ≤ 21625 / 100000 := by
+    rw [radians_eq]; norm_num
+    have p1 := Real.pi_lt_d4
+    have p0 := Real.pi_pos
+    norm_num at p1
+    nlinarith
+  obtain ⟨t0, t1⟩ := tan_small_wide hx0 hx1
+  constructor
+  · exact mul_nonneg t0 t0
+  · nlinarith
+
+theorem etime_abs_wide (y e s1 s2 s3 c s4 s5 : ℝ) (hy : 0 ≤ y ∧ y ≤ 49032 / 1000000)
+    (he : 12 / 1000 ≤ e ∧ e ≤ 21 / 1000)
+    (h1 : |s1| ≤ 1) (h2 : |s2| ≤ 1) (h3 : |s3| ≤ 1) (hc : |c| ≤ 1) (h4 : |s4| ≤ 1) (h5 : |s5| ≤ 1) :
+    |y * s1 - 2 * e * s2 + 4 * e * y * s3 * c - 1 / 2 * y * y * s4 - 5 / 4 * e * e * s5| ≤ 97 / 1000 := by
+  have e0 : 0 ≤ e := by linarith [he.1]
+  have t1 := abs_le.mp (abs_mul_unit hy.1 h1)
+  have t2 := abs_le.mp (abs_mul_unit (show 0 ≤ 2 * e by linarith) h2)
+  have h3c : |s3 * c| ≤ 1 := by simpa using abs_mul_le' h3 hc
+  have t3 := abs_le.mp (abs_mul_unit (show 0 ≤ 4 * e * y by nlinarith [hy.1]) h3c)
+  have t4 := abs_le.mp (abs_mul_unit (show 0 ≤ 1 / 2 * y * y by nlinarith [hy.1]) h4)
+  have t5 := abs_le.mp (abs_mul_unit (show 0 ≤ 5 / 4 * e * e by nlinarith) h5)
+  have b3 : 4 * e * y ≤ 4 * (21 / 1000) * (49032 / 1000000) := by nlinarith [hy.1, hy.2, he.2]
+  have b4 : 1 / 2 * y * y ≤ 1 / 2 * (49032 / 1000000) * (49032 / 1000000) := by nlinarith [hy.1, hy.2]
+  have b5 : 5 / 4 * e * e ≤ 5 / 4 * (21 / 1000) * (21 / 1000) := by nlinarith [he.2]
+  rw [abs_le]
+  constructor <;> nlinarith [t1.1, t1.2, t2.1, t2.2, t3.1, t3.2, t4.1, t4.2, t5.1, t5.2, hy.2, he.2]
+
+/-- **the equation of time is within 22.5 minutes of zero over the whole calendar** (years 1 … 9999) -/
+theorem eqOfTime_bound_wide (jc : ℝ) (h : |jc| ≤ 81) : |eqOfTime jc| ≤ 45 / 2 := by
+  unfold eqOfTime
+  simp only [trig_sin, trig_cos]
+  have hy := varY_bound_wide jc h
+  have he := ecc_bound_wide jc h
+  have key := etime_abs_wide (varY jc) (eccentricLocationEarthOrbit jc)
+    (Real.sin (2.0 * radians (geomMeanLongSun jc))) (Real.sin (radians (geomMeanAnomalySun jc)))
+    (Real.sin (radians (geomMeanAnomalySun jc))) (Real.cos (2.0 * radians (geomMeanLongSun jc)))
+    (Real.sin (4.0 * radians (geomMeanLongSun jc))) (Real.sin (2.0 * radians (geomMeanAnomalySun jc)))
+    hy he (Real.abs_sin_le_one _) (Real.abs_sin_le_one _) (Real.abs_sin_le_one _)
+    (Real.abs_cos_le_one _) (Real.abs_sin_le_one _) (Real.abs_sin_le_one _)
+  rw [degrees_eq]
+  have p0 := Real.pi_gt_d4
+  norm_num at p0
+  have ppos := Real.pi_pos
+  have e2 : (2.0 : ℝ) = 2 := by norm_num
+  have e4 : (4.0 : ℝ) = 4 := by norm_num
+  have e05 : (0.5 : ℝ) = 1 / 2 := by norm_num
+  have e125 : (1.25 : ℝ) = 5 / 4 := by norm_num
+  rw [e2, e4, e05, e125]
+  set E := varY jc * Real.sin (2 * radians (geomMeanLongSun jc))
+    - 2 * eccentricLocationEarthOrbit jc * Real.sin (radians (geomMeanAnomalySun jc))
+    + 4 * eccentricLocationEarthOrbit jc * varY jc * Real.sin (radians (geomMeanAnomalySun jc))
+        * Real.cos (2 * radians (geomMeanLongSun jc))
+    - 1 / 2 * varY jc * varY jc * Real.sin (4 * radians (geomMeanLongSun jc))
+    - 5 / 4 * eccentricLocationEarthOrbit jc * eccentricLocationEarthOrbit jc
+        * Real.sin (2 * radians (geomMeanAnomalySun jc)) with hE
+  rw [e2, e4] at key
+  have hk : |E| ≤ 97 / 1000 := key
+  have : E * (180 / Real.pi) * 4 = E * (720 / Real.pi) := by ring
+  rw [this, abs_mul, abs_of_pos (div_pos (by norm_num) ppos)]
+  have h720 : 720 / Real.pi ≤ 720 / (6283 / 2000) :=
+    div_le_div_of_nonneg_left (by norm_num) (by norm_num) p0.le
+  calc |E| * (720 / Real.pi) ≤ 97 / 1000 * (720 / (6283 / 2000)) :=
+        mul_le_mul hk h720 (div_pos (by norm_num) ppos).le (by norm_num)
+    _ ≤ 45 / 2 := by norm_num
+
 /-- non-vacuity: the hypothesis covers the property's whole date range -/
 example : |(-(1 : ℝ))| ≤ 101 / 100 ∧ |(1 : ℝ)| ≤ 101 / 100 := by norm_num
 
